@@ -96,7 +96,7 @@ func main() {
 		var names []string
 		for _, fi := range p.Funcs {
 			if fi.Decl != nil && !fi.Ctl {
-				names = append(names, fi.Name+"\t"+sigKey(fi.Obj))
+				names = append(names, fi.Name+"\t"+sigKey(fi.Obj)+"\t"+strings.Join(paramNames(fi.Sig), ","))
 			}
 		}
 		sort.Strings(names)
